@@ -250,6 +250,116 @@ fn aftermath(l: &mut fsm::Live, state: u8) {
     }
 }
 
+/// long-lived sessions: totality is about every state the client can be in, and some states are only reached late
+const N_LONG: u64 = 7;
+const LONG_NAMES: [&str; 7] = [
+    "400 frames of PDUs the active client ignores (unknown data PDUs, Set Error Info, other share-control types, a data PDU cut short), one per frame",
+    "one frame packing 400, then one packing 1400 Set Error Info PDUs",
+    "re-activations whose demand-active announces fewer, other, no, then all capability sets",
+    "100 000 send-data indications on the user channel, queued at once",
+    "70 000 send-data indications on a channel that was never joined and from another initiator",
+    "300 re-activations rotating four capability lists",
+    "2 000 fast-path frames with unknown update codes / empty payloads between bitmap updates",
+];
+
+fn run_long(k: u64) -> Outcome {
+    let mut l = match fsm::fresh() {
+        Ok(l) => l,
+        Err(e) => return Outcome::fail("setup", "honest-connect-failed", e),
+    };
+    for ev in PREFIX.iter() {
+        if let Err(e) = fsm::step(&mut l, *ev) {
+            return Outcome::fail("setup", "honest-prefix-failed", format!("{} {}", e.0, e.1));
+        }
+    }
+    fn feed(l: &mut fsm::Live, f: &[u8]) {
+        l.sh.borrow_mut().push_to_client(f);
+        let mut n = 0;
+        while !l.sh.borrow().to_client.is_empty() && n < 4 {
+            let _ = l.client.read(|_| {});
+            n += 1;
+        }
+        l.sh.borrow_mut().to_client.clear();
+    }
+    let windows_caps = share::parse_demand_active_body(&share::windows_capture_demand_active()).expect("embedded capture").2;
+    let activation = |l: &mut fsm::Live, caps: &[share::CapSet]| {
+        feed(l, &sdi(&share::deactivate_all(SID, 1002)));
+        feed(l, &sdi(&share::demand_active(SID, 1002, b"RDP\0", caps, 0)));
+        for ev in [2usize, 3, 4, 6] {
+            feed(l, &fsm::event_frame(ev, SID));
+        }
+        let _ = l.client.try_write(rdp::core::event::RdpEvent::Pointer(rdp::core::event::PointerEvent { x: 2, y: 3, button: rdp::core::event::PointerButton::None, down: false }));
+    };
+    match k {
+        0 => {
+            let kinds: Vec<Vec<u8>> = vec![
+                sdi(&share::set_error_info(SID, 1002, 0)),
+                sdi(&share::share_data(SID, 1002, 0x2F, &[1, 2, 3, 4])),
+                sdi(&share::share_control(0x13, 1002, &[0; 8])),
+                sdi(&share::share_data(SID, 1002, 0x26, &[2, 0])),
+                sdi(&share::share_data(SID, 1002, 0x1B, &[])),
+                {
+                    let mut cut = share::set_error_info(SID, 1002, 5);
+                    cut.truncate(cut.len() - 3);
+                    let n = cut.len() as u16;
+                    cut[0..2].copy_from_slice(&n.to_le_bytes());
+                    sdi(&cut)
+                },
+            ];
+            for i in 0..400 {
+                feed(&mut l, &kinds[i % kinds.len()]);
+                if i % 50 == 49 {
+                    feed(&mut l, &fsm::event_frame(10, SID));
+                }
+            }
+        }
+        1 => {
+            for n in [400usize, 1400] {
+                let body: Vec<u8> = (0..n).flat_map(|i| share::set_error_info(SID, 1002, (i % 3) as u32)).collect();
+                feed(&mut l, &sdi(&body));
+            }
+        }
+        2 => {
+            let fewer: Vec<share::CapSet> = windows_caps.iter().take(3).cloned().collect();
+            let other: Vec<share::CapSet> = windows_caps.iter().rev().take(5).cloned().collect();
+            for caps in [windows_caps.clone(), fewer, other, vec![], share::minimal_caps(), windows_caps.clone(), windows_caps.iter().step_by(2).cloned().collect()] {
+                activation(&mut l, &caps);
+            }
+        }
+        3 | 4 => {
+            let (count, initiator, channel) = if k == 3 { (100_000usize, 1002u16, 1007u16) } else { (70_000, 1005, 1009) };
+            let one = framing::tpkt(&framing::x224_dt(&vref::mcs::send_data_indication(initiator, channel, &[0x41])));
+            let all: Vec<u8> = crate::alloc::exempt(|| one.iter().cycle().take(one.len() * count).copied().collect());
+            l.sh.borrow_mut().push_to_client(&all);
+            let mut n = 0;
+            while !l.sh.borrow().to_client.is_empty() && n < count + 100 {
+                let _ = l.client.read(|_| {});
+                n += 1;
+            }
+            l.sh.borrow_mut().to_client.clear();
+        }
+        5 => {
+            let lists = [windows_caps.clone(), share::minimal_caps(), windows_caps.iter().take(7).cloned().collect::<Vec<_>>(), vec![]];
+            for i in 0..300 {
+                activation(&mut l, &lists[i % 4]);
+            }
+        }
+        _ => {
+            for i in 0..2000usize {
+                let f = match i % 4 {
+                    0 => framing::fastpath(0, &[], i % 8 == 0),
+                    1 => framing::fastpath(0, &vref::fastpath::updates_payload(&[vref::fastpath::other_update((2 + i % 14) as u8)]), false),
+                    2 => framing::fastpath(0, &[0x0F, 0x00, 0x00], false),
+                    _ => fsm::event_frame(10, SID),
+                };
+                feed(&mut l, &f);
+            }
+        }
+    }
+    aftermath(&mut l, 5);
+    Outcome::pass(format!("long-lived:{}", k), true)
+}
+
 impl C06 {
     fn locate(&self, idx: u64) -> (&'static str, u64) {
         let mut i = idx;
@@ -386,7 +496,7 @@ impl Prop for C06 {
             }
         }
         let fs = FaultSpace::new(pdu_kinds(), tier);
-        let mut blocks = vec![("single", 6 * fs.total()), ("inner-slow", self.block_count("inner-slow")), ("inner-mcs", self.block_count("inner-mcs")), ("inner-fast", self.block_count("inner-fast")), ("inner-frame", self.block_count("inner-frame")), ("frame-pairs", 6 * (inner_pdus().len() * inner_pdus().len()) as u64), ("structured", 6 * structured_frames().len() as u64)];
+        let mut blocks = vec![("single", 6 * fs.total()), ("inner-slow", self.block_count("inner-slow")), ("inner-mcs", self.block_count("inner-mcs")), ("inner-fast", self.block_count("inner-fast")), ("inner-frame", self.block_count("inner-frame")), ("frame-pairs", 6 * (inner_pdus().len() * inner_pdus().len()) as u64), ("structured", 6 * structured_frames().len() as u64), ("long-lived", N_LONG)];
         if tier == Tier::Thorough {
             let r = fs.reduced_count();
             blocks.push(("pairs", 2 * r * r));
@@ -399,13 +509,16 @@ impl Prop for C06 {
         self.blocks.iter().map(|b| b.1).sum()
     }
     fn describe(&self, idx: u64) -> Value {
+        if let ("long-lived", k) = self.locate(idx) {
+            return json!({"idx": idx, "block": "long-lived", "session": LONG_NAMES[k as usize]});
+        }
         let (_s, bytes, mut d, _c) = self.decode(idx);
         d["idx"] = json!(idx);
         d["frame_hex"] = json!(vref::bytes::hex(&bytes[..bytes.len().min(96)]));
         d
     }
     fn rule(&self) -> String {
-        "cases = (client state 0..5 reached by the honest activation prefix of a client configured, in rotation, 800x600 / 65535x65535 with a 30-byte name / 0x0 without a name / 65533x1, one server frame with <=1 deviation (<=2 thorough)). PDU kinds: demand-active (Windows capability list and minimal), deactivate-all, synchronize, control, font-map, set-error-info, an unparsed data PDU, two share PDUs in one frame, a confirm-active sent by the server, fast-path bitmap (raw + compressed-with-header rectangles), fast-path pointer/synchronize updates, unknown fast-path codes. Deviations: every byte offset x value set (12 boundary values + honest+-1; all 256 in thorough), every offset as 16/32-bit field in both byte orders x boundary set, every truncation, extensions {+1,+2,+1500}; [inner-*] every byte string of length <=2 (<=3 in thorough for the Data state, and state 0 at the share-control entry) and every string of length 3..4 (..6 in thorough) over 8 boundary bytes at the MCS, share-control (states 0,1,5 in quick, all six in thorough) and fast-path parser entries, and as raw unframed bytes at the frame reader; [pairs, thorough] all pairs of {byte:=00, byte:=FF, truncate} over all offsets, in states 0 and 5. [structured] well-formed frames with consistent length fields in each of the six states: every share-control type x version bits x body length, every pduType2 0..0x40 x payload length 0..12, every prefix of the honest body of each data PDU the client parses, TPKT frames whose body is 1..6 bytes long (every X.224 code byte behind 4 length indicators), compression / stream bytes, a demand-active carrying a capability of every type 0..0x1F, 0xFF, 0xFFFF x body length, source descriptors of 0..300 bytes in ASCII / Latin-1 / 2-3-4-byte UTF-8 at every alignment / invalid UTF-8 / UTF-16, capability counts off by +-1 / +100, no and 2000 capabilities, every MCS domain-PDU choice 0..63, every disconnect reason, indications on other channels / from other users, every fast-path update code x fragmentation x compression bit x body length (also under the header's secure-checksum / encrypted flags), rectangle counts 0..0xFFFF against two present; [frame-pairs] every ordered pair of 10 well-formed share PDUs in one frame, in each of the six states. After the hostile frame an honest PDU is read to expose desynchronisation loops, then, whether the hostile frame was tolerated or refused, the server plays the rest of an honest activation from that state followed by fast-path output and a data PDU, with an input attempt after every step: neither a tolerated fault nor a refused one may blow up later. Non-trivial: the frame differs from the honest one.".into()
+        "cases = (client state 0..5 reached by the honest activation prefix of a client configured, in rotation, 800x600 / 65535x65535 with a 30-byte name / 0x0 without a name / 65533x1, one server frame with <=1 deviation (<=2 thorough)). PDU kinds: demand-active (Windows capability list and minimal), deactivate-all, synchronize, control, font-map, set-error-info, an unparsed data PDU, two share PDUs in one frame, a confirm-active sent by the server, fast-path bitmap (raw + compressed-with-header rectangles), fast-path pointer/synchronize updates, unknown fast-path codes. Deviations: every byte offset x value set (12 boundary values + honest+-1; all 256 in thorough), every offset as 16/32-bit field in both byte orders x boundary set, every truncation, extensions {+1,+2,+1500}; [inner-*] every byte string of length <=2 (<=3 in thorough for the Data state, and state 0 at the share-control entry) and every string of length 3..4 (..6 in thorough) over 8 boundary bytes at the MCS, share-control (states 0,1,5 in quick, all six in thorough) and fast-path parser entries, and as raw unframed bytes at the frame reader; [pairs, thorough] all pairs of {byte:=00, byte:=FF, truncate} over all offsets, in states 0 and 5. [structured] well-formed frames with consistent length fields in each of the six states: every share-control type x version bits x body length, every pduType2 0..0x40 x payload length 0..12, every prefix of the honest body of each data PDU the client parses, TPKT frames whose body is 1..6 bytes long (every X.224 code byte behind 4 length indicators), compression / stream bytes, a demand-active carrying a capability of every type 0..0x1F, 0xFF, 0xFFFF x body length, source descriptors of 0..300 bytes in ASCII / Latin-1 / 2-3-4-byte UTF-8 at every alignment / invalid UTF-8 / UTF-16, capability counts off by +-1 / +100, no and 2000 capabilities, every MCS domain-PDU choice 0..63, every disconnect reason, indications on other channels / from other users, every fast-path update code x fragmentation x compression bit x body length (also under the header's secure-checksum / encrypted flags), rectangle counts 0..0xFFFF against two present; [frame-pairs] every ordered pair of 10 well-formed share PDUs in one frame, in each of the six states. After the hostile frame an honest PDU is read to expose desynchronisation loops, then, whether the hostile frame was tolerated or refused, the server plays the rest of an honest activation from that state followed by fast-path output and a data PDU, with an input attempt after every step: neither a tolerated fault nor a refused one may blow up later. [long-lived] seven sessions on one active client: 400 frames of PDUs it ignores; frames packing 400 and 1400 PDUs; re-activations whose demand-active announces fewer / other / no / all capability sets; 100 000 indications on the user channel and 70 000 on a channel never joined, queued at once; 300 re-activations rotating four capability lists; 2 000 fast-path frames with unknown codes and empty payloads. Non-trivial: the frame differs from the honest one.".into()
     }
     fn assumptions(&self) -> Vec<String> {
         vec!["memory rule: single request > 1 MiB or peak > 16 MiB + 1024 x bytes received".into(), "the six states are reached through RdpClient::read on the raw stack (hooks H3/H4); TLS record handling is not part of this property".into()]
@@ -415,6 +528,9 @@ impl Prop for C06 {
                "pdu_kinds": self.space.as_ref().map(|f| f.msgs.iter().map(|m| json!({"name": m.name, "bytes": m.honest.len()})).collect::<Vec<_>>())})
     }
     fn run_case(&mut self, idx: u64) -> Outcome {
+        if let ("long-lived", k) = self.locate(idx) {
+            return run_long(k);
+        }
         let (state, frame, desc, changed) = self.decode(idx);
         // the client's own configuration rotates with the case index (what it writes while reading depends on it)
         let mut cfg = crate::fixture::ClientCfg::default();
